@@ -35,7 +35,7 @@ LEVEL_NOTE = "Trusted: virtual loop determinism; the ledger written by the test 
 ASSUMPTIONS = [
     "a disposable whose enter did not complete (failed or was still suspended) must not be exited (context-manager protocol)",
     "how several cleanup errors are packaged is free: each must be reachable (identity, group leaf, or cause/context chain)",
-    "__aexit__ return values (suppression) are not generated",
+    "a disposable's __aexit__ may return True: the scope must not treat that as permission to swallow the body's exception",
 ]
 EXHAUSTIVE_MEANS = "thorough: all (enter, yields, exit) behaviours for <=2 disposables x body outcomes {return, raise}, plus crash points of the cancelled variants"
 REQUIRED_CLASSES = ["two-or-more-disposables", "enter-failure", "exit-failure", "suspension", "body-raises", "cancelled-body"]
